@@ -200,6 +200,10 @@ impl AssemblyWindow {
     }
 }
 
+#[cfg(feature = "verif")]
+impl AssemblyWindow {
+    pub fn verif_alloc(&self) -> usize { self.alloc }
+}
 
 #[cfg(test)]
 mod tests {
